@@ -60,8 +60,17 @@ def make(name, **over):
     if base == "Sudoku":
         return E.Sudoku(generator=g["SudokuDummy"](), **over)
     if base == "BinPack":
+        if var == "csv":
+            from jumanji.environments.packing.bin_pack.generator import CSVGenerator
+            path = os.path.join(os.path.dirname(os.path.abspath(__file__)), "data", "binpack_small.csv")
+            return E.BinPack(generator=CSVGenerator(path, max_num_ems=5, container_dims=(4, 4, 4)), obs_num_ems=over.pop("obs_num_ems", 4), **over)
         if var == "toy":
             return E.BinPack(generator=g["BPToy"](), obs_num_ems=over.pop("obs_num_ems", 6), **over)
+        if var and var[0].isdigit():
+            # BinPack@<items>x<max_ems>x<obs_ems>x<X>x<Y>x<Z>  (sized variant, e.g. a non-cubic container)
+            ni, ne, no, cx, cy, cz = (int(x) for x in var.split("x"))
+            return E.BinPack(generator=g["BPGen"](max_num_items=ni, max_num_ems=ne, split_num_same_items=1, container_dims=(cx, cy, cz)),
+                             obs_num_ems=over.pop("obs_num_ems", no), **over)
         return E.BinPack(generator=g["BPGen"](max_num_items=3, max_num_ems=5, split_num_same_items=1, container_dims=(4, 4, 4)),
                          obs_num_ems=over.pop("obs_num_ems", 4), **over)
     if base == "FlatPack":
@@ -106,6 +115,9 @@ def make(name, **over):
         r, c = (int(x) for x in (var or "3x4").split("x"))
         return E.Snake(num_rows=r, num_cols=c, **tl(), **over)
     if base == "Sokoban":
+        if var == "toy":  # two hard-coded levels, level index drawn by randint on reset
+            from jumanji.environments.routing.sokoban.generator import ToyGenerator as SokobanToy
+            return E.Sokoban(generator=SokobanToy(), **tl(), **over)
         return E.Sokoban(generator=g["SimpleSolveGenerator"](), **tl(), **over)
     if base == "TSP":
         return E.TSP(generator=g["TSPGen"](num_cities=int(var or 4)), **over)
@@ -126,3 +138,43 @@ DEFAULT_OK = ["Game2048", "GraphColoring", "Minesweeper", "RubiksCube", "Sliding
 
 def make_default(name):
     return getattr(E, name)()
+
+
+# ---- appended (RobotWarehouse / PacMan harness): size variants.  'RobotWarehouse@<shelf_rows>x<shelf_columns>x<column_height>x
+# <agents>x<queue>' (sensor_range 1);  'PacMan@<maze name>' with the mazes of PACMAN_MAZES.  Everything else -> make above.
+PACMAN_MAZES = {"9x7": ["XXXXXXX",
+                        "XSO OSX",
+                        "X XGX X",
+                        "XT   TX",
+                        "XGX XGX",
+                        "XT P TX",
+                        "X XGX X",
+                        "XSO OSX",
+                        "XXXXXXX"],
+                 "9x11": ["XXXXXXXXXXX",
+                          "XSO     OSX",
+                          "X XGX XGX X",
+                          "XT       TX",
+                          "X X XXX X X",
+                          "XT   P   TX",
+                          "X XGX XGX X",
+                          "XSO     OSX",
+                          "XXXXXXXXXXX"]}
+_make_before_rw_pm = make
+
+
+def make(name, **over):  # noqa: F811
+    base, _, var = name.partition("@")
+    if var and base == "RobotWarehouse":
+        from jumanji.environments.routing.robot_warehouse.generator import RandomGenerator as RWGen
+        over = dict(over)
+        T = over.pop("time_limit", None)
+        sr, sc, ch, na, q = (int(x) for x in var.split("x"))
+        return E.RobotWarehouse(generator=RWGen(column_height=ch, shelf_rows=sr, shelf_columns=sc, num_agents=na, sensor_range=1,
+                                                request_queue_size=q), time_limit=T if T is not None else 5, **over)
+    if var and base == "PacMan":
+        from jumanji.environments.routing.pac_man.generator import AsciiGenerator
+        over = dict(over)
+        T = over.pop("time_limit", None)
+        return E.PacMan(generator=AsciiGenerator(PACMAN_MAZES[var]), **({"time_limit": T} if T is not None else {}), **over)
+    return _make_before_rw_pm(name, **over)
